@@ -48,6 +48,9 @@ def setup_worker(tier, seed):
 
 def _has_nonstring_object_column(v):
     cols = [v[c] for c in v.columns] if isinstance(v, pd.DataFrame) else ([v] if isinstance(v, pd.Series) else [])
+    if isinstance(v, (pd.DataFrame, pd.Series)):
+        # the import converts an object INDEX (e.g. timestamps mixed with ints after a concat) to strings just like a column
+        cols += [v.index.get_level_values(i).to_series() for i in range(v.index.nlevels)]
     for s in cols:
         if s.dtype == object and any(not isinstance(x, str) for x in s.dropna().tolist()):
             return True
